@@ -78,6 +78,7 @@ FRAG = {
         'void': '<a> u <b/> v <c></c> w </a>',
         'ent': '<a> x &amp; y &#65; </a>',
         'tight': '<a><b>1</b><c>2</c></a>',
+        'wsonly': '<a> u <c> </c> v<d>\n</d></a>',
     },
     'json': {
         'arr': '[ %N , %N ]',
@@ -318,7 +319,9 @@ def design(ctx):
     """spec/OptDesign.tla: D => A over every symbol sequence x option set (TLC), the seeded design
     faults (thorough), and its state space as documents for the real code"""
     dump = ctx.path('gen', 'design')
-    r = mc(ctx, 'OptDesign', 'OptDesign_quick.cfg', dump=dump, workers=4, heap='4g', timeout=1500)
+    # quick: <= 2 symbols x a strength-3 covering array of the 2^7 option sets; thorough: <= 2 symbols x all 128
+    # option sets (dumped: documents for the real code) and <= 3 symbols x the covering array
+    r = mc(ctx, 'OptDesign', 'OptDesign_quick.cfg' if ctx.quick() else 'OptDesign_mid.cfg', dump=dump, workers=4, heap='4g', timeout=1500)
     m = re.search(r'<<"SIGMA", "(.*)">>', r['out'])
     if not m:
         raise vlib.Infra('OptDesign did not print its alphabet')
@@ -485,6 +488,12 @@ def cli_cases(ctx):
             flags.append('--' + f if name in BOOL_OPTS else '--%s=%s' % (f, v))
         out.append(dict(mode='cli', lang=lang, o=o, flags=flags, exp=dict(fl=[dict(flag=f, val=int(v)) for f, v in fl]),
                         **{'in': RICH[lang][int(st['inp']) - 1]}))
+    # the table of spec/CliFlags.tla covers every minifier flag of the usage text in cmd/minify/README.md
+    table = set(c['exp']['fl'][0]['flag'] for c in out if len(c['flags']) == 1)
+    readme = open(os.path.join(vlib.REPO, 'cmd', 'minify', 'README.md')).read()
+    documented = set(re.findall(r'^\s+--((?:css|html|js|json|svg|xml)-[a-z0-9-]+)', readme, flags=re.M))
+    if not documented or documented - table:
+        raise vlib.Infra('spec/CliFlags.tla lacks documented flags: %s' % sorted(documented - table))
     return out
 
 
@@ -686,8 +695,7 @@ def run(ctx):
              '(language, options, flags, exact input); (c) the repository\'s own JS test inputs under 8 Version x KeepVarNames '
              'settings, judged on those two clauses. Generator exclusions (pinned as known findings, see '
              'known/C16.txt): JS `Math.pow(a,b)` calls, JS object properties whose key equals the value identifier '
-             '(`{name: name}`), XML elements whose content is only white space (`<c> </c>`), CSS numbers written with '
-             'an exponent while KeepCSS2 is on.',
+             '(`{name: name}`), CSS numbers written with an exponent while KeepCSS2 is on.',
         samples=tally.samples,
     ))
     ctx.assumptions += [
